@@ -55,7 +55,7 @@ def work(item):
         out['error'] = type(e).__name__
         return out
     try:
-        out['nw'] = nwchem_cases(b, rng) + nwchem_ecp_cases(b, rng) + g94_cases(b, rng)
+        out['nw'] = nwchem_cases(b, rng) + nwchem_ecp_cases(b, rng) + g94_cases(b, rng) + g94_ecp_cases(b, rng)
     except Exception as e:
         out['nw'] = [('harness-error', None, '%s: %s' % (type(e).__name__, e))]
     fmts = sorted(set(writers.get_writer_formats()) & set(readers.get_reader_formats()))
@@ -449,6 +449,107 @@ def g94_cases(b, rng):
             cases.append(('g94-read:' + kind, dict(op='g94_read', lines=[g94_tok(l, True) for l in m]), g94_real_read(m)))
     return cases
 
+
+def g94e_tok(line):
+    from basis_set_exchange.readers import helpers
+    if helpers.is_integer(line):
+        return {'c': line.strip()}
+    # raw tokens: the reader replaces D by E only inside the tables (a symbol line such as 'ND 0' must stay as it is);
+    # the returned numbers are compared after the same replacement
+    return {'o': line.split()}
+
+
+def g94_real_read_ecp(block):
+    from basis_set_exchange.readers import g94 as rg
+    bs = {}
+    try:
+        rg._parse_ecp_lines(list(block), bs)
+    except Exception as e:
+        return ('err', type(e).__name__)
+    (z, el), = bs.items()
+    return ('ok', [int(z), str(el['ecp_electrons']),
+                   [dict(am=p['angular_momentum'], rexp=[int(x) for x in p['r_exponents']], gexp=p['gaussian_exponents'], coef=p['coefficients'][0]) for p in el['ecp_potentials']]])
+
+
+def g94_ecp_mutations(block, rng):
+    out = []
+    n = len(block)
+    from basis_set_exchange.readers import helpers
+    for kind in ('drop_line', 'swap', 'count_wrong', 'count_zero', 'count_first', 'two_counts', 'no_counts', 'lmax_wrong', 'four_tokens', 'float_rexp', 'drop_potential',
+                 'extra_title', 'bad_sym', 'second_line_short', 'lower'):
+        m = list(block)
+        try:
+            counts = [i for i, l in enumerate(m) if i >= 2 and helpers.is_integer(l)]
+            rows = [i for i, l in enumerate(m) if i >= 2 and not helpers.is_integer(l) and not l[0].isalpha()]
+            if kind == 'drop_line':
+                del m[rng.randrange(n)]
+            elif kind == 'swap':
+                i, j = rng.randrange(n), rng.randrange(n); m[i], m[j] = m[j], m[i]
+            elif kind == 'count_wrong':
+                i = rng.choice(counts); m[i] = str(int(m[i]) + rng.choice([-1, 1, 2]))
+            elif kind == 'count_zero':
+                i = rng.choice(counts); m[i] = rng.choice(['0', '-1', '+1'])
+            elif kind == 'count_first':
+                m.insert(2, m[rng.choice(counts)])
+            elif kind == 'two_counts':
+                i = rng.choice(counts); m.insert(i, m[i])
+            elif kind == 'no_counts':
+                m = [l for k, l in enumerate(m) if k not in counts]
+            elif kind == 'lmax_wrong':
+                t = m[1].split(); t[1] = str(int(t[1]) + rng.choice([-1, 1])); m[1] = '     '.join(t)
+            elif kind == 'four_tokens':
+                i = rng.choice(rows); m[i] = m[i] + ' 1.0'
+            elif kind == 'float_rexp':
+                i = rng.choice(rows); t = m[i].split(); t[0] = rng.choice(['1.0', 'x', '+2']); m[i] = ' '.join(t)
+            elif kind == 'drop_potential':
+                i = counts[-1]; m = m[:i - 1]
+            elif kind == 'extra_title':
+                i = rng.choice(counts); m.insert(i - 1, 'extra title')
+            elif kind == 'bad_sym':
+                t = m[0].split(); t[0] = rng.choice(['Xx', 'Q1', '29']); m[0] = '     '.join(t)
+            elif kind == 'second_line_short':
+                m[1] = ' '.join(m[1].split()[:2])
+            elif kind == 'lower':
+                m = [l.lower() for l in m]
+        except (IndexError, ValueError):
+            continue
+        m = [l for l in m if l.strip()]
+        if m:
+            out.append((kind, m))
+    return out
+
+
+def g94_ecp_cases(b, rng):
+    from basis_set_exchange import writers
+    from basis_set_exchange.readers import helpers, g94 as rg
+    ecp_els = [(z, el) for z, el in b['elements'].items() if 'ecp_potentials' in el]
+    if not ecp_els or any(len(p['coefficients']) != 1 for _, el in ecp_els for p in el['ecp_potentials']):
+        return []
+    try:
+        text = writers.write_formatted_basis_str(b, 'gaussian94')
+    except Exception:
+        return []
+    lines = helpers.prune_lines(text.splitlines(), '!')
+    try:
+        sections = helpers.partition_lines(lines, rg.element_re.match, min_size=3)
+    except Exception:
+        return []
+    blocks = [es for es in sections if len(es) > 3 and helpers.is_integer(es[3])]
+    if len(blocks) != len(ecp_els):
+        return [('g94-harness-error', None, 'ecp blocks %d vs elements %d' % (len(blocks), len(ecp_els)))]
+    conv = lambda x: x.strip().replace('e', 'D').replace('E', 'D')
+    cases = []
+    for k in rng.sample(range(len(blocks)), min(2, len(blocks))):
+        block, (z, el) = blocks[k], ecp_els[k]
+        pots = [dict(am=p['angular_momentum'][0], terms=[[str(r), conv(g), conv(c)] for r, g, c in zip(p['r_exponents'], p['gaussian_exponents'], p['coefficients'][0])])
+                for p in el['ecp_potentials']]
+        cases.append(('g94ecp-write', dict(op='g94_ecp_write', z=int(z), nelec=str(el['ecp_electrons']), pots=pots),
+                      [({'c': l.strip()} if helpers.is_integer(l) else {'o': l.split()}) for l in block]))
+        cases.append(('g94ecp-read', dict(op='g94_ecp_read', lines=[g94e_tok(l) for l in block]), g94_real_read_ecp(block)))
+        for kind, m in g94_ecp_mutations(block, rng):
+            cases.append(('g94ecp-read:' + kind, dict(op='g94_ecp_read', lines=[g94e_tok(l) for l in m]), g94_real_read_ecp(m)))
+    return cases
+
 def run(ctx):
     bse = import_bse()
     R = Result('C03')
@@ -500,7 +601,7 @@ def run(ctx):
             if 'drv_error' in a:
                 raise DriverError(a['drv_error'])
             R.ev()
-            if what in ('write', 'ecp-write', 'g94-write'):
+            if what in ('write', 'ecp-write', 'g94-write', 'g94ecp-write'):
                 R.count('nwchem-model:' + what)
                 if a['lines'] != exp:
                     k = next((i for i, (x, y) in enumerate(zip(a['lines'], exp)) if x != y), min(len(a['lines']), len(exp)))
@@ -514,6 +615,10 @@ def run(ctx):
                     continue
                 if what.startswith('ecp') and got[0] == 'ok':
                     got = ('ok', [[z, n, [dict(p, rexp=[int(x) for x in p['rexp']]) for p in ps]] for z, n, ps in got[1]])
+                if what.startswith('g94ecp') and got[0] == 'ok':
+                    z, n, ps = got[1]
+                    rd = lambda x: x.replace('D', 'E').replace('d', 'e')
+                    got = ('ok', [z, n, [dict(am=p['am'], rexp=[int(x) for x in p['rexp']], gexp=[rd(x) for x in p['gexp']], coef=[rd(x) for x in p['coef']]) for p in ps]])
                 if got[0] != exp[0] or (got[0] == 'ok' and got[1] != exp[1]):
                     R.disagree('nwchem_read', dict(basis=label, stream=what), str(got)[:200], str(exp)[:200], note='reader model vs readers/nwchem.py on the same lines')
                 elif got[0] == 'ok':
